@@ -58,6 +58,23 @@ def spec_notes(field):
     return tracks
 
 
+# the documented spellings of the commands the specification's printer writes (command.md: rows with one description)
+SPELLINGS = [("TrackKey(", ["TrackKey(", "TR_KEY("]), ("KeyShift(", ["KeyShift(", "Key(", "KEY("]), ("TR(", ["TR(", "Track(", "TRACK("]),
+             ("CH(", ["CH(", "Channel("]), ("Sub{", ["Sub{", "SUB{", "S{"]), ("@(", ["@(", "Voice(", "VOICE("]), ("KF+(", ["KF+(", "KeyFlag+("]),
+             ("KF-(", ["KF-(", "KeyFlag-("])]
+
+
+def respell(rng, text):
+    """every occurrence of a command name is written with one of its documented spellings (they mean the same)"""
+    if rng.random() < 0.5:
+        return text
+    for name, alts in SPELLINGS:
+        if name in text:
+            parts = text.split(name)
+            text = parts[0] + "".join(rng.choice(alts) + p for p in parts[1:])
+    return text
+
+
 def run(ctx):
     rng = ctx.rng
     n = 1500 if ctx.tier == "quick" else 40000
@@ -70,7 +87,7 @@ def run(ctx):
             if len(ctx.notes) < 5:
                 ctx.notes.append("generator/driver: %s -> %s" % (a[:80], r[:60]))
             continue
-        progs.append((a, vlib.dec_text(f[0]), spec_notes(f[1])))
+        progs.append((a, respell(rng, vlib.dec_text(f[0])), spec_notes(f[1])))
     lines = ["compile_lex\t%s" % vlib.enc_text(p[1]) for p in progs]
     got = ctx.impl(lines, stall=20)
     mod = ctx.model(["compile_core\t%s" % vlib.enc_text(p[1]) for p in progs])
